@@ -66,12 +66,47 @@ func c20(r *core.Run) {
 		c20Ctor(r, fn, call)
 	}
 	c20Kernel(r)
+	c20SameSpelling(r)
 }
 
 // c20Kernel: the location is resolved the way the kernel will resolve the spelling when the database is opened:
 // symbolic links are followed BEFORE ".." is applied. The spelling handed to EvalSymlinks must therefore not have
 // gone through a lexically cleaning function (filepath.Abs, Clean, Join, Dir, Base) — for `link/../db` with
 // link → /etc/ssl cleaning yields `./db`, the kernel opens /etc/db.
+// c20SameSpelling: what is vetted is the spelling that is opened: the resolver is applied to the constructor's path
+// parameter itself, not to a part of it (its directory, its base) — vetting only the directory lets a leaf that is a
+// symlink into a protected directory through.
+func c20SameSpelling(r *core.Run) {
+	p := r.P
+	n := 0
+	for _, fn := range p.FuncsIn(storeRel) {
+		core.InstrsOf(fn, func(in ssa.Instruction) {
+			c, ok := in.(*ssa.Call)
+			if !ok {
+				return
+			}
+			g := core.StaticCallee(&c.Call)
+			if g == nil || !p.IsProdFunc(g) || g == fn || len(c.Call.Args) != 1 {
+				return
+			}
+			// g is the resolver: it applies EvalSymlinks to (something derived from) its parameter
+			resolves := false
+			core.InstrsOf(g, func(in2 ssa.Instruction) {
+				if core.IsCallTo(in2, "path/filepath.EvalSymlinks") {
+					resolves = true
+				}
+			})
+			if !resolves {
+				return
+			}
+			n++
+			_, isParam := core.Unwrap(c.Call.Args[0]).(*ssa.Parameter)
+			r.Check(isParam, "C20.RESOLVED", core.FuncName(fn)+"#resolver-gets-the-opened-spelling", in.Pos(), "the resolver is applied to the path parameter itself", "the resolver is applied to "+core.Canon(c.Call.Args[0])+", not to the path that is opened: only a part of the spelling is vetted, so a leaf that is a symlink into a protected directory (or the protected directory itself) is not refused")
+		})
+	}
+	r.Floor("C20.RESOLVED", "calls of the location resolver", n, 1)
+}
+
 func c20Kernel(r *core.Run) {
 	p := r.P
 	n := 0
